@@ -52,6 +52,15 @@ def flags_all_one(vals, line):
     return None
 
 
+def scaletypes_ok(vals, line):
+    t = line.split()
+    if not t or t[0] != 'ok' or len(t) != 7: return 'error result ' + line[:100]
+    names = ['int scale', 'long scale', 'unsigned scale', 'float scale', 'Stokes<float> with double scale', 'Stokes<float> with float scale']
+    for n, f in zip(names, t[1:]):
+        if f != '1': return 'random Stokes contract (I == scale, 0 <= |p| <= max*scale, invariant >= 0 to rounding, no exception) broken for ' + n
+    return None
+
+
 def zero_flag(vals, line):
     t = line.split()
     if not t or t[0] != 'ok': return 'error result ' + line[:100]
@@ -135,6 +144,13 @@ def gen_C18(g, tier):
         mp = g.choice([1.0, 1.0, 0.5, 0.25, 0.0, 0.75])
         cs.append(Case('rnd.stokes %s %s %s' % (dhex(abs(sc)), dhex(mp), ' '.join(str(rint(g)) for _ in range(4))), 'cmp', 'stokes'))
         cs.append(Case('o.c18.ranges %s %s %s' % (dhex(abs(sc)), dhex(mp), ' '.join(str(rint(g)) for _ in range(g.choice([4, 6, 9])))), 'orc', 'ranges', check=flags_all_one))
+    # the scale passed as int / long / unsigned / float, and single-precision vectors
+    for _ in range(n):
+        isc = g.choice([1, 2, 3, 10, 100, 1000, 12345, g.randint(1, 1000000)]); mp = g.choice([1.0, 1.0, 0.5, 0.25, 0.75])
+        cs.append(Case('o.c18.scaletypes %d %s %s' % (isc, dhex(mp), ' '.join(str(rint(g)) for _ in range(4))), 'orc', 'scale-types', check=scaletypes_ok))
+    for _ in range(n // 2):   # the fraction at (and just below) its maximum: the rounding of the single-precision paths
+        isc = g.choice([1, 3, 10, 1000, 77777]); r0 = g.choice([RAND_MAX, RAND_MAX - 1, RAND_MAX - 100, RAND_MAX - 5000])
+        cs.append(Case('o.c18.scaletypes %d %s %d %s' % (isc, dhex(g.choice([1.0, 0.5])), r0, ' '.join(str(g.randint(0, RAND_MAX)) for _ in range(3))), 'orc', 'scale-types-full-fraction', check=scaletypes_ok))
     for sc in (0.0, 1.0, 1e4, 1e8, 1e-170, 1e-200, 1e160):
         for mp in (1.0, 0.5):
             for r0 in (RAND_MAX, RAND_MAX - 1, 0):
@@ -148,6 +164,7 @@ def replay_check(vals, line_out):
     if not t or t[0] != 'ok': return 'error result ' + line_out[:100]
     if len(t) == 2: return zero_flag(vals, line_out)
     if len(t) == 3: return stream_ok(vals, line_out)
+    if len(t) == 7: return scaletypes_ok(vals, line_out)
     return flags_all_one(vals, line_out)
 
 
